@@ -65,6 +65,7 @@ fn space_for(tier: Tier) -> (Space, usize) {
             s.ast_range("LP", 1, 3, 32, 5);
             s.list("spansets", n, 64);
             s.list("literals under q", 8 + 64 + 512, 16);
+            s.list("case families under i", 7, 1);
             (s, 3)
         }
         Tier::Thorough => {
@@ -72,6 +73,7 @@ fn space_for(tier: Tier) -> (Space, usize) {
             s.ast_range("LP", 1, 4, 32, 6);
             s.list("spansets", n, 64);
             s.list("literals under q", 8 + 64 + 512, 16);
+            s.list("case families under i", 7, 1);
             (s, 4)
         }
     }
@@ -253,6 +255,41 @@ impl Check for C04 {
                     }
                 }
                 out.sample(J::obj(vec![("pattern", J::s(&text)), ("input", J::s(SPANSET_INPUT)), ("intended_spans", J::s(format!("{:?}", spans)))]));
+            }
+            return;
+        }
+        if let SegKind::List { name: "case families under i" } = seg.kind {
+            // characters whose case relations are not ASCII-like, as literals, classes and
+            // prefixes of longer patterns: the three scan APIs must still agree
+            const FAMILIES: [&[char]; 7] = [
+                &['i', 'I', '\u{130}', '\u{131}'],
+                &['s', 'S', '\u{17f}'],
+                &['k', 'K', '\u{212a}'],
+                &['\u{b5}', '\u{3bc}', '\u{39c}'],
+                &['\u{3c3}', '\u{3c2}', '\u{3a3}'],
+                &['\u{df}', '\u{1e9e}'],
+                &['\u{1c4}', '\u{1c5}', '\u{1c6}'],
+            ];
+            for i in lo..hi {
+                let fam = FAMILIES[i as usize];
+                let mut sigma: Vec<char> = fam.to_vec();
+                sigma.push('t');
+                sigma.push('\u{391}');
+                let inputs = all_strings(&sigma, 3);
+                for a in fam {
+                    for text in [format!("{}", a), format!("{}(t)", a), format!("[{}]", a), format!("{}+", a), format!("(?:{}|t)t", a), format!("t{}", a)] {
+                        for flags in ["i", "", "is"] {
+                            if let Compiled::Ok(re) = common::compile(&text, flags, false) {
+                                out.inc("nontrivial");
+                                for inp in &inputs {
+                                    out.pin(&|| format!("{:?} {:?} {:?}", text, flags, inp));
+                                    judge(out, &scope_name, &text, flags, false, &re, inp);
+                                }
+                            }
+                        }
+                    }
+                }
+                out.sample(J::obj(vec![("family", J::s(fam.iter().collect::<String>()))]));
             }
             return;
         }
